@@ -79,6 +79,21 @@ theorem run_sim (c : Cfg) (hsafe : c.unsafeMut = false) (table : List Op) (is : 
   obtain ⟨r, hr, hrel, _⟩ := steps_sim hsafe h1 (srel_init c.version) dense_nil
   exact ⟨r, hr, h1.simRun_eq ▸ hrel⟩
 
+/-- **C17 at the level of objects.**  The same statement about the cells behind the stack and the memo
+(`Obj.lean`: what `process_stack_ops` really builds — aliases, copies, in-place mutation): for every prefix of
+a run, the kinds of the cells on the object-level stack, slot by slot, and the kinds of the cells under the
+memo keys are related to the reference machine's state — via `C14.obj_refines_sim`, the projection of the
+object model being the simulated VM. -/
+theorem obj_run_sim (c : Cfg) (hsafe : c.unsafeMut = false) (table : List Op) (is : List Instr)
+    (hrun : Run c table is) (p : List Instr) (hp : p <+: is.dropLast) :
+    ∃ r, Ref.run {} p = .ok (r, []) ∧
+      SRel (Obj.proj (Obj.run c.version p) (decide (c.version ≥ 2))) r := by
+  obtain ⟨r, hr, hrel⟩ := run_sim c hsafe table is hrun p hp
+  refine ⟨r, hr, ?_⟩
+  have := (Obj.proj_run c.version p (decide (c.version ≥ 2))).2
+  rw [this]
+  exact hrel
+
 /-- the relation really pins depth and MARK positions -/
 theorem rel_depth {s : State} {r : RState} (h : SRel s r) : s.stack.length = r.stack.length :=
   h.stack.length_eq
